@@ -3,8 +3,18 @@ package main
 // chain drivers for the C23 table: fill a router's header store with a canonical chain carrying given state roots.
 
 import (
+	"encoding/json"
+	"math/big"
+
 	ecommon "github.com/ethereum/go-ethereum/common"
 	etypes "github.com/ethereum/go-ethereum/core/types"
+	"github.com/polynetwork/poly/account"
+	"github.com/polynetwork/poly/common"
+	scm "github.com/polynetwork/poly/native/service/governance/side_chain_manager"
+	hs "github.com/polynetwork/poly/native/service/header_sync"
+	hscom "github.com/polynetwork/poly/native/service/header_sync/common"
+	heth "github.com/polynetwork/poly/native/service/header_sync/eth"
+	"github.com/polynetwork/poly/native/service/utils"
 
 	"verifh/kit/nativekit"
 	"verifh/kit/vio"
@@ -66,10 +76,88 @@ func (c *posaChain) CanonRoot(h uint64) (ecommon.Hash, bool) {
 	return root, ok
 }
 
-type ethChain struct{ seed uint64 }
-
-func (c *ethChain) Install(ccm ecommon.Address, wait uint64, roots map[uint64]ecommon.Hash, g0, best, forkAt uint64, forkRoot ecommon.Hash) *nativekit.Sandbox {
-	vio.Fatal("eth chain driver not built yet")
-	return nil
+type ethChain struct {
+	seed uint64
+	sb   *nativekit.Sandbox
 }
-func (c *ethChain) CanonRoot(h uint64) (ecommon.Hash, bool) { return ecommon.Hash{}, false }
+
+// pre-London difficulty rule (no uncles, far below the bomb), written independently of poly's code
+func ethDiffNext(parentDiff int64, parentTime, t uint64) *big.Int {
+	x := int64(1) - int64((t-parentTime)/9)
+	if x < -99 {
+		x = -99
+	}
+	d := parentDiff + parentDiff/2048*x
+	if d < 131072 {
+		d = 131072
+	}
+	return big.NewInt(d)
+}
+
+// Install: Ethash seals cannot be mined offline, so the seal decision (and only it) is taken by the verif hook;
+// canonical blocks 10 s apart, the fork block 25 s after its parent (lower difficulty => stays a side branch).
+func (c *ethChain) Install(ccm ecommon.Address, wait uint64, roots map[uint64]ecommon.Hash, g0, best, forkAt uint64, forkRoot ecommon.Hash) *nativekit.Sandbox {
+	heth.VerifSealHook = func(h *heth.Header) (bool, error) { return true, nil }
+	sb := nativekit.New()
+	sb.Height = sandboxBlock
+	sb.SeedValidators([]*account.Account{opAccount}, 1)
+	ns := sb.Service(nativekit.Tx(), nil)
+	vio.Must(scm.PutSideChain(ns, &scm.SideChain{ChainId: sideChainID, Router: utils.ETH_ROUTER, Name: "eth", BlocksToWait: wait, CCMCAddress: ccm.Bytes()}))
+	sb.Cache.Commit()
+	c.sb = sb
+	g := &heth.Header{UncleHash: etypes.EmptyUncleHash, Difficulty: big.NewInt(1000000), Number: new(big.Int).SetUint64(g0), GasLimit: 10000000,
+		Time: timeBase, Extra: []byte{}, Root: roots[g0]}
+	gb, err := json.Marshal(g)
+	vio.Must(err)
+	p := &hscom.SyncGenesisHeaderParam{ChainID: sideChainID, GenesisHeader: gb}
+	sink := common.NewZeroCopySink(nil)
+	p.Serialization(sink)
+	if _, _, err := sb.Call(hs.SyncGenesisHeader, nativekit.Tx(opAccount.Address), sink.Bytes()); err != nil {
+		vio.Fatal("eth genesis install failed: %v", err)
+	}
+	child := func(parent *heth.Header, dt uint64, root ecommon.Hash, salt byte) *heth.Header {
+		h := &heth.Header{ParentHash: parent.Hash(), UncleHash: etypes.EmptyUncleHash, Number: new(big.Int).Add(parent.Number, big.NewInt(1)),
+			GasLimit: parent.GasLimit, Time: parent.Time + dt, Extra: []byte{salt}, Coinbase: ecommon.Address{salt}, Root: root}
+		h.Difficulty = ethDiffNext(parent.Difficulty.Int64(), parent.Time, h.Time)
+		return h
+	}
+	sync := func(h *heth.Header) {
+		b, err := json.Marshal(h)
+		vio.Must(err)
+		sp := &hscom.SyncBlockHeaderParam{ChainID: sideChainID, Address: opAccount.Address, Headers: [][]byte{b}}
+		s := common.NewZeroCopySink(nil)
+		sp.Serialization(s)
+		if _, _, err := sb.Call(hs.SyncBlockHeader, nativekit.Tx(opAccount.Address), s.Bytes()); err != nil {
+			vio.Fatal("eth chain driver: header %d refused: %v", h.Number.Uint64(), err)
+		}
+	}
+	parent := g
+	var forkParent *heth.Header
+	for h := g0 + 1; h <= best; h++ {
+		if h == forkAt {
+			forkParent = parent
+		}
+		hd := child(parent, 10, roots[h], 1)
+		sync(hd)
+		parent = hd
+	}
+	if forkParent != nil {
+		sync(child(forkParent, 25, forkRoot, 2))
+	}
+	ns = sb.Service(nativekit.Tx(), nil)
+	cur, _, err := heth.GetCurrentHeader(ns, sideChainID)
+	vio.Must(err)
+	if cur.Hash() != parent.Hash() {
+		vio.Fatal("eth chain driver: canonical head is not the intended one")
+	}
+	return sb
+}
+
+func (c *ethChain) CanonRoot(h uint64) (ecommon.Hash, bool) {
+	ns := c.sb.Service(nativekit.Tx(), nil)
+	hd, _, err := heth.GetHeaderByHeight(ns, h, sideChainID)
+	if err != nil {
+		return ecommon.Hash{}, false
+	}
+	return hd.Root, true
+}
